@@ -34,7 +34,7 @@ ALPHA = {
     "I": [0, 1, 2**31, 2**32 - 1],
     "d": [0.0, 0.1, -1 / 3, 1e300, -5e-324, 235959.99],
     "b": [-128, 0, 127],
-    "str": ["", "a", "J0437-4715 with spaces " + "x" * 57],
+    "str": ["", "a", "J0437-4715 with spaces " + "x" * 57, " B0531+21  ", "  ", "tab\tname "],
 }
 MANDATORY = [("nchans", 3), ("nbits", 8)]
 
@@ -185,7 +185,7 @@ def _field_cases(part: str, tier: str):
                 for j, (d, e) in enumerate(itertools.product(tsamps, tstarts)):
                     yield {"fch1": a, "foff": b, "nchans": c, "tsamp": d, "tstart": e, "nbits": nbs[(i + j) % 6]}
     elif part == "misc":
-        for s in ["", "a", "J1234+5678", "B1937+21 (test)", "n" * 80]:
+        for s in ["", "a", "J1234+5678", "B1937+21 (test)", "n" * 80, " B0531+21  ", "trailing ", " leading"]:
             yield {"source": s}
         for ib, nb in itertools.product([0, 1, 13], repeat=2):
             yield {"ibeam": ib, "nbeams": nb}
@@ -252,7 +252,7 @@ def _fields(wd, shard, ctx, res, only):
 def _edit_values(key: str, old):
     vals = [0, 1, 7, -1, 2**32, 1.5, -2.25e10, "abc", "", None, True]
     if isinstance(old, str):
-        vals += ["y" * len(old), "z" * (len(old) + 3), "q" * max(0, len(old) - 2)]
+        vals += ["y" * len(old), "z" * (len(old) + 3), "q" * max(0, len(old) - 2), " " + "p" * max(0, len(old) - 2) + " "]
     return vals
 
 
